@@ -165,6 +165,11 @@ def dictionary(start_id):
              variant("Plain", ser=["ini", "INI."])], aci=eaci)
     # a type parameter without a Default bound under payloads that are Default for every T
     add([variant("Unit"), variant("Opt", "tuple", [field("optT")], ser=["o"]), variant("Named", "named", [field("phT", "p"), field("u8", "n")])], generics="tynd")
+    # variants named like the associated items and prelude names the generated impls mention
+    add([variant("Ok"), variant("Err"), variant("Error", ser=["error", "failure"]), variant("Item", dis=True), variant("Output")])
+    add([variant("Err", "tuple", [field("u8")], aci=1), variant("Error", "named", [field("String", "text")], default=True)])
+    # an enum NAMED like a type the generated impls mention
+    add([variant("Eof"), variant("Bad", ser=["bad", "invalid"]), variant("Other", dis=True)], name="ParseError")
     # more variants than a byte counts
     add([variant("Name%d" % k, aci=(1 if k % 50 == 3 else 2), dis=(k % 97 == 11)) for k in range(300)], style="kebab-case")
     # empty enum, single variant
